@@ -469,6 +469,14 @@ def np_eval(var: Var, env: dict):
     A = opn.attrs
     if isinstance(opn, Function):
         out = sub(opn.func_graph)(*ins)
+    elif isinstance(opn, _Inline):
+        # the meaning of an inlined model is what the model itself computes (onnxruntime on m)
+        try:
+            out = ort_run(opn.model, {i.name: v for i, v in zip(opn.model.graph.input, ins)})
+        except Exception as e:  # noqa: BLE001
+            raise NoEval("inlined model not runnable on these values: " + str(e)[:80])
+    elif k == "Scaler":
+        out = [((ins[0] - np.array(A.offset.value, np.float32)) * np.array(A.scale.value, np.float32)).astype(np.float32)]
     elif k == "Add": out = [ins[0] + ins[1]]
     elif k == "Sub": out = [ins[0] - ins[1]]
     elif k == "Abs": out = [np.abs(ins[0])]
